@@ -311,55 +311,66 @@ func r164(c *Ctx, r *R) {
 			r.OK("unpin:nil:request-ok", lf.Pos, "nil when the request succeeded")
 			continue
 		}
-		// tolerated error: must be an ipfsError (type assertion ok) whose
-		// message equals one of the not-pinned texts
-		isIPFSErr := lf.GuardedBy(func(g Guard) bool {
+		// tolerated error: every path to this nil either saw the request
+		// succeed or established (a) that the error is an ipfsError (type
+		// assertion ok) and (b) that its message equals one of the
+		// not-pinned texts - directly or through a boolean helper whose
+		// true answers establish it
+		requestOK := func(g Guard) bool { return gCallErrNil(g, "ipfshttp.Connector).postCtx") }
+		isAssert := func(g Guard) bool {
 			ex, ok := g.Cond.(*ssa.Extract)
 			if !ok || ex.Index != 1 || !g.Branch {
 				return false
 			}
 			ta, ok := ex.Tuple.(*ssa.TypeAssert)
 			return ok && strings.HasSuffix(ta.AssertedType.String(), "ipfshttp.ipfsError")
-		})
-		// every edge into the returning block compares Message for equality
-		msgEq := true
-		blk := lf.Block
-		preds := blk.Preds
-		if lf.Into != nil {
-			preds = []*ssa.BasicBlock{blk}
-			blk = lf.Into
 		}
-		if len(preds) == 0 {
-			msgEq = false
-		}
-		for _, p := range preds {
-			iff, ok := p.Instrs[len(p.Instrs)-1].(*ssa.If)
-			if !ok {
-				msgEq = false
-				continue
+		isMsgEq := func(g Guard) bool {
+			b, ok := g.Cond.(*ssa.BinOp)
+			if !ok || !(b.Op == token.EQL && g.Branch || b.Op == token.NEQ && !g.Branch) {
+				return false
 			}
-			b, ok := iff.Cond.(*ssa.BinOp)
-			if !ok || (b.Op != token.EQL && b.Op != token.NEQ) {
-				msgEq = false
-				continue
-			}
-			fl, _ := fieldLoad(b.X)
-			if fl == nil {
-				if fv, ok := b.X.(*ssa.Field); ok {
-					if s := structOf(fv.X.Type()); s != nil && s.Field(fv.Field).Name() == "Message" {
-						fl = s.Field(fv.Field)
+			isMsg := func(v ssa.Value) bool {
+				if fl, _ := fieldLoad(v); fl != nil && fl.Name() == "Message" {
+					return true
+				}
+				if fv, ok := v.(*ssa.Field); ok {
+					if st := structOf(fv.X.Type()); st != nil && st.Field(fv.Field).Name() == "Message" {
+						return true
 					}
 				}
+				return false
 			}
-			rhs, _ := originCall(b.Y)
-			eqEdge := p.Succs[0]
-			if b.Op == token.NEQ {
-				eqEdge = p.Succs[1]
+			isNotPinnedText := func(v ssa.Value) bool {
+				rhs, _ := originCall(v)
+				if rhs == nil || !nameMatches(callName(rhs.Common()), ").Error") {
+					return false
+				}
+				// <pkg>.ErrNotPinned.Error()
+				recv := rhs.Common().Value
+				if !rhs.Common().IsInvoke() && len(rhs.Common().Args) > 0 {
+					recv = rhs.Common().Args[0]
+				}
+				if u, ok := recv.(*ssa.UnOp); ok {
+					if gl, ok := u.X.(*ssa.Global); ok {
+						return gl.Name() == "ErrNotPinned"
+					}
+				}
+				return true
 			}
-			if fl == nil || fl.Name() != "Message" || rhs == nil || !nameMatches(callName(rhs.Common()), ").Error") || eqEdge != blk {
-				msgEq = false
-			}
+			return isMsg(b.X) && isNotPinnedText(b.Y) || isMsg(b.Y) && isNotPinnedText(b.X)
 		}
+		blk := lf.Block
+		edgeOK := func(pred func(Guard) bool) bool {
+			if lf.Into != nil {
+				if gs := lf.Guards(); len(gs) > 0 && (establishes(gs[0], pred) || requestOK(gs[0])) {
+					return true
+				}
+			}
+			return mustPass(blk, func(g Guard) bool { return requestOK(g) || establishes(g, pred) })
+		}
+		isIPFSErr := edgeOK(isAssert)
+		msgEq := edgeOK(isMsgEq)
 		r.Check(isIPFSErr && msgEq, "unpin:nil:not-pinned-only", lf.Pos, "a failed request is tolerated only for an IPFS 'not pinned' error",
 			fmt.Sprintf("Unpin reports success for a failed request that is not an IPFS 'not pinned' answer (ipfsError asserted: %v, message compared on every path: %v): transport failures and timeouts count as unpinned", isIPFSErr, msgEq))
 	}
